@@ -21,6 +21,16 @@ TIERS = {'quick': {'cases': 800, 'wall': 45, 'faults_per_case': 5}, 'thorough': 
 RULE = ('case = seeded specification with 0-3 rejected calls inserted, written, then (fault part) re-executed once per enumerated '
         'fault point with a retry; non-trivial = at least one call was actually rejected or one fault actually fired before the '
         'compared write; distinct = case digest')
+def bad_channel_with_data(rng, lfi, n):
+    """add_channel(data=<valid array>, <one invalid attribute>): rejected after the arguments were accepted one by one."""
+    rows = 4
+    bad = rng.choice([{'properties': ['NOT-A-PROPERTY']}, {'dimension': [1.5]}, {'axis': [{'$ref': lfi['origins'][0]}]},
+                      {'minimum_value': 'low'}, {'long_name': 12}])
+    kw = dict({'data': {'$arr': {'dtype': '<f8', 'shape': [rows], 'kind': 'ramp', 'start': -999.25, 'step': 0}}}, **bad)
+    return {'op': 'add', 'lf': lfi['lf'], 'h': 'bad%d' % n, 'c': 0, 'bad': 'channel_with_data', 'kind': 'channel',
+            'name': 'GHOSTD', 'kwargs': kw}
+
+
 def schema_bad(rng, lfi, n):
     """A rejected call for an arbitrary object type: one attribute gets a value its kind cannot accept."""
     from .. import schema
@@ -103,8 +113,10 @@ def gen_case(rng, tier, avoid):
     nb = 0 if 'ghost_object' in avoid else rng.choice([0, 1, 1, 2, 3])
     bad_classes = []
     for n in range(nb):
-        kind = gen.pick(rng, BAD_KINDS + ['schema'] * 6)
+        kind = gen.pick(rng, BAD_KINDS + ['schema'] * 6 + ['channel_with_data'] * 3)
         sb = schema_bad(rng, lfi, n) if kind == 'schema' else None
+        if kind == 'channel_with_data':
+            sb = (bad_channel_with_data(rng, lfi, n), ('channel', 'GHOSTD'))
         if sb is not None:
             bop, (vk, vname) = sb
             kind = bop['bad']
@@ -141,10 +153,21 @@ def gen_case(rng, tier, avoid):
         if cands:
             ops.append({'op': 'set', 'h': cands[0]['h'], 'attr': 'status', 'part': 'value', 'v': 9, 'c': 0, 'bad': 'bad_assignment'})
     mode = rng.choice(['plain', 'io_fault', 'io_fault', 'interrupt', 'data_error'])
+    ext = None
+    if rng.random() < 0.25 and mode != 'data_error':
+        # all valid channels get their data at write time from a non-dict source; a rejected add_channel(data=...) must not matter
+        keep = [op for op in ops if op.get('bad')]
+        good, ext = gen.externalize([op for op in ops if not op.get('bad')], rng.choice(['h5', 'struct']), rng, extras=False)
+        merged, gi = [], iter(good)
+        for op in ops:
+            merged.append(op if op.get('bad') else next(gi))
+        ops = merged
     params = {'mode': mode, 'ocs': gen.pick(rng, [['mrl', 0], ['mrl', 64], ['abs', 1 << 20]]), 'bad': bad_classes,
               'pick': [rng.random() for _ in range(24)], 'n_faults': TIERS[tier]['faults_per_case']}
     if mode == 'data_error':
         params['drop_dataset'] = rng.random()
+    if ext is not None:
+        params['data'] = ext
     return {'scenario': {'env': {'tz': 'UTC'}, 'history': ops}, 'params': params}
 
 
@@ -156,6 +179,8 @@ def check_case(case, ex):
     out = []
     ocs = C.resolve_ocs(Pm['ocs'], mrl, 0)
     w = C.wop(fid, output_chunk_size=ocs, path='out.dlis', count_lines=True)
+    if Pm.get('data'):
+        w['data'] = Pm['data']
     sc, res = C.run(case, ex, [w], stats)
     steps = res['steps']
     # ---- immediate: registries unchanged by a rejected call
@@ -252,6 +277,8 @@ def check_case(case, ex):
         else:
             w1 = C.wop(fid, output_chunk_size=ocs, path='out.dlis', faults=plan)
             w2 = C.wop(fid, output_chunk_size=ocs, path='out.dlis')
+            if Pm.get('data'):
+                w1['data'] = w2['data'] = Pm['data']
             base = case
             kind = plan[0]['kind']
             want_file = st['file']       # the same history, written fault-free in another fork
